@@ -181,6 +181,24 @@ def _(h, t, s1, s2, step):
     h.call(h.getattr(a, 'unpeer'), b); step()
 
 
+@program('names_stay_unique_in_their_scope')
+def _(h, t, s1, s2, step):
+    """attempts to create a second element of the same name in every scope, in the orders a guard could miss"""
+    fac = h.call(h.getattr(t, 'add_facility'), name='shared', site=s1, labels=h.call(Labels, vlan='100'),
+                 capacities=h.call(Capacities, bw=10)); step()
+    h.attempt(h.getattr(t, 'add_node'), name='shared', site=s2); step()                 # a node named like a facility
+    n1 = h.call(h.getattr(t, 'add_node'), name='n1', site=s1); step()
+    h.attempt(h.getattr(t, 'add_facility'), name='n1', site=s2); step()                 # a facility named like a node
+    ifs = [('a', h.call(Labels, vlan='100'), h.call(Capacities, bw=10)), ('a', h.call(Labels, vlan='200'), h.call(Capacities, bw=10))]
+    h.attempt(h.getattr(t, 'add_facility'), name='fac2', site=s2, interfaces=L(h, ifs)); step()    # two ports of one name
+    c1 = h.call(h.getattr(n1, 'add_component'), name='nic1', model_type=CMT('SmartNIC_ConnectX_6')); step()
+    port = topo.iface(h, c1, 'nic1-p1')
+    h.call(h.getattr(port, 'add_child_interface'), name='sub1', labels=h.call(Labels, vlan='100')); step()
+    h.attempt(h.getattr(port, 'add_child_interface'), name='sub1', labels=h.call(Labels, vlan='200')); step()
+    h.call(h.getattr(t, 'add_network_service'), name='svc', nstype=ServiceType.L2Bridge, interfaces=L(h, [])); step()
+    h.attempt(h.getattr(t, 'add_network_service'), name='svc', nstype=ServiceType.L2STS, interfaces=L(h, [])); step()
+
+
 def make(name, prog):
     class P(Contract):
         target = 'fim.user.topology:Topology.add_node'
